@@ -341,14 +341,23 @@ func (c *rebaseCtx) alternatives(v ssa.Value) []phiEnv {
 func init() {
 	core.Register(&core.Rule{
 		Name: "R-REBASE",
-		Doc: "A position found in a window is reported in the caller's coordinates. In every candidate finder (the implementations of Prefilter.Find/FindMatch and the exported simd ...At wrappers) a returned position that comes from a search of a re-sliced haystack S = h[b:] (a leaf byte search, an assembly kernel, another finder through the interface, or a module helper - whose own contribution of its arguments to its result is read off its return statements: findScalar returns start+i, verifyBucket hands its pos argument back) must have had exactly the window's base b added to it: over the symbols that occur in window bases of the function (start, accumulated offsets), the returned expression minus the found position equals base(S). Phis are expanded one incoming edge per block at a time, so a loop that re-slices by an accumulated offset and adds that offset back is checked for its entry edge and its back edge. A helper called with the rest of the haystack but the old base (findScalar(haystack[acc:], start)) returns positions short by acc: smaller than the real occurrence and >= start, so nothing downstream notices. Necessary for C16 (Find returns the smallest position at or after the offset where a literal occurs) and C12.",
-		Min: 18, NeedSSA: true,
+		Doc: "A position found in a window is reported in the caller's coordinates. In every module function with a []byte parameter, a returned position that comes from a search of a re-sliced haystack S = h[b:] (a leaf byte search, an assembly kernel, another finder through the interface, or a module helper - whose own contribution of its arguments to its result is read off its return statements: findScalar returns start+i, verifyBucket hands its pos argument back) must have had exactly the window's base b added to it: over the symbols that occur in window bases of the function (start, accumulated offsets), the returned expression minus the found position equals base(S). Phis are expanded one incoming edge per block at a time, so a loop that re-slices by an accumulated offset and adds that offset back is checked for its entry edge and its back edge. A helper called with the rest of the haystack but the old base (findScalar(haystack[acc:], start)) returns positions short by acc: smaller than the real occurrence and >= start, so nothing downstream notices. Necessary for C16 (Find returns the smallest position at or after the offset where a literal occurs) and C12.",
+		Min: 300, NeedSSA: true,
 		Run: func(p *core.Prog) *core.RuleResult {
 			res := &core.RuleResult{}
 			subjects, errs := candidateFinders(p)
 			if errs != "" {
 				res.Fatal = append(res.Fatal, errs)
 				return res
+			}
+			{
+				subjects = nil
+				for _, fn := range p.SrcFuncs() {
+					if strings.HasSuffix(p.File(fn.Pos()), "_test.go") || fn.Parent() != nil || !p.InModule(ownPkg(fn)) {
+						continue
+					}
+					subjects = append(subjects, fn)
+				}
 			}
 			for _, fn := range subjects {
 				var hay *ssa.Parameter
@@ -362,6 +371,19 @@ func init() {
 				}
 				name := core.FuncName(fn)
 				kc := core.NewKeyCounter()
+				// integer parameters that serve as the low bound of some window in this function
+				lowParams := map[string]bool{}
+				for _, b := range fn.Blocks {
+					for _, in := range b.Instrs {
+						if sl, ok := in.(*ssa.Slice); ok && sl.Low != nil && isByteSeq(sl.X.Type()) {
+							for _, s := range ssaLin(sl.Low, map[string]bool{}, 0).Symbols() {
+								if strings.HasPrefix(s, "go:") {
+									lowParams[s] = true
+								}
+							}
+						}
+					}
+				}
 				for _, b := range fn.Blocks {
 					for _, in := range b.Instrs {
 						ret, ok := in.(*ssa.Return)
@@ -410,11 +432,7 @@ func init() {
 								for _, s := range base.Symbols() {
 									fs[s] = true
 								}
-								for _, prm := range fn.Params {
-									if isIntType(prm.Type()) {
-										fs["go:"+prm.Name()] = true
-									}
-								}
+								_ = lowParams
 								diff := rest.Plus(base, -1)
 								var off []string
 								for _, s := range diff.Symbols() {
